@@ -420,16 +420,38 @@ func (p *Path) hashUF(name string, in Slice, n int, real func([]byte) []byte) []
 		}
 		return out
 	}
-	var app *Term
-	if len(in) == 0 {
-		app = tb.App(fmt.Sprintf("h_%s_0", name), SBV(8*n))
-	} else {
-		app = tb.App(fmt.Sprintf("h_%s_%d", name, len(in)), SBV(8*n), tb.Concat(termsOf(in)...))
+	// Ackermann encoding of the uninterpreted hash: one fresh variable per syntactically
+	// distinct argument, with functional consistency (equal arguments => equal digests)
+	// asserted against every earlier application of the same function and length.
+	var arg *Term
+	if len(in) > 0 {
+		arg = tb.Concat(termsOf(in)...)
+	}
+	key := fmt.Sprintf("%s/%d", name, len(in))
+	apps, _ := p.extra["hash:"+key].([]hashApp)
+	for _, a := range apps {
+		if a.arg == arg {
+			copy(out, a.out)
+			return out
+		}
+	}
+	app := p.fresh("h"+name, SBV(8*n))
+	for _, a := range apps {
+		if arg != nil {
+			p.assertPC(tb.Implies(tb.Eq(a.arg, arg), tb.Eq(a.res, app)))
+		}
 	}
 	for i := 0; i < n; i++ {
 		out[i] = tb.Extract(app, 8*(n-i)-1, 8*(n-i-1))
 	}
+	p.extra["hash:"+key] = append(apps, hashApp{arg: arg, res: app, out: append([]Value{}, out...)})
 	return out
+}
+
+type hashApp struct {
+	arg *Term
+	res *Term
+	out []Value
 }
 
 // sprintf: concrete when format and all verbs' args are concrete and simple;
